@@ -74,6 +74,8 @@ type trace struct {
 	StoredOld   []string `json:"-"`
 	StoredNew   []string `json:"-"`
 	StoreBlocks int      `json:"-"`
+	// legacy state: the ContractClassHash / ContractNonce buckets after every block (`addr:class:nonce`, sorted)
+	Fields [][]string `json:"-"`
 }
 
 type getter interface {
